@@ -3,7 +3,7 @@ from common import *
 import gen_table as G
 
 RULE = ("generated scripts (1-3 tables of the core fragment, multi-line layout) with comments inserted at the positions the "
-        "property lists: whole-line '--' / '#' / '/* .. */' lines (indented or not) between and inside statements, multi-line "
+        "property lists: whole-line '--' / '#' / '/* .. */' lines (indented or not) between and inside statements and as the very last line of a script whose last statement may lack its ';', multi-line "
         "blocks starting at column 0 between or inside statements (closing line with or without leading text), trailing '-- c' "
         "and '/* c */' after the code of a line; comment texts are quote-free words incl. statement-level words (create, go, use, "
         "insert, set ...). expected: entities equal to those of the comment-free script; every item of the comments entry is a "
@@ -78,7 +78,22 @@ def run(ctx, res):
     for i in range(n):
         tabs = [G.gen_table(rng, name="t%d_%d" % (i % 40, j)) for j in range(rng.choice([1, 1, 2, 3]))]
         base = "\n".join(G.render_table(t, None) for t in tabs) + "\n"
+        # the end of the script varies: last statement with or without its ';', final newline or not
+        if i % 4 == 1:
+            base = base.rstrip("\n")
+            res.count("end:no_final_newline")
+        elif i % 4 == 2:
+            base = base.rstrip("\n").rstrip(";")
+            res.count("end:unterminated_last_statement")
         commented, texts = insert_comments(rng, base)
+        if i % 4 in (1, 2) and rng.random() < 0.7:
+            # a comment-only line as the very last line of the script (no newline after it)
+            t = ctext(rng)
+            k = rng.randrange(3)
+            commented += "\n" + (("-- " + t) if k == 0 else ("# " + t) if k == 1 else ("/* " + t + " */"))
+            if k == 2:
+                texts.append(t)
+            res.count("end:final_comment_line")
         cases.append((base, commented, texts))
     A = ctx.impl.map([{"op": "run", "ddl": b} for b, _, _ in cases])
     B = ctx.impl.map([{"op": "run", "ddl": c} for _, c, _ in cases])
